@@ -53,7 +53,7 @@ def gen_treeinfo(rng, R=None):
         d["media"] = {"discnum": rng.randint(1, 3), "totaldiscs": 3}
     if rng.random() < 0.5:
         for p in rng.sample(["images/boot.iso", "repodata/repomd.xml", "images/pxeboot/vmlinuz", "LiveOS/squashfs.img"], rng.randint(1, 3)):
-            d["checksums"][p] = [rng.choice(["sha256", "md5", "sha1"]), rstr(rng, "0123456789abcdef", 32, 32)]
+            d["checksums"][p] = [rng.choice(["sha256", "md5", "sha1"]), rstr(rng, rng.choice(["0123456789abcdef", "0123456789abcdef", "0123456789ABCDEF", "0123456789abcdefABCDEF"]), 32, 32)]
     return d
 
 
